@@ -68,6 +68,20 @@ func (ex *Exec) isOwnClosure(fn *ssa.Function) bool {
 	return false
 }
 
+// siteName: the name under which `callsite` clauses of the function under verification refer to fn: its name relative to
+// its package, or (for functions of other packages) qualified with the last element of the package path (sort.Search).
+func (ex *Exec) siteName(fn *ssa.Function) string {
+	rn := relName(fn)
+	if ex.contract == nil {
+		return rn
+	}
+	q := shortName(funcPkgPath(fn)) + "." + rn
+	if len(ex.contract.CallSites[q]) > 0 || len(ex.contract.CallSiteMods[q]) > 0 || len(ex.contract.CallSiteEns[q]) > 0 {
+		return q
+	}
+	return rn
+}
+
 // callSiteObligations: `callsite <callee> requires e` clauses of the function under verification.
 func (ex *Exec) callSiteObligations(fr *Frame, ins ssa.Instruction, cname string, args []Val) {
 	if ex.contract == nil || fr.fn != ex.root {
@@ -84,7 +98,7 @@ func (ex *Exec) callSiteObligations(fr *Frame, ins ssa.Instruction, cname string
 
 func (ex *Exec) staticCall(fr *Frame, ins ssa.Instruction, fn *ssa.Function, args []Val, free []Val, isDefer bool) {
 	// also for intrinsics, inlined callees and callees without a contract
-	ex.callSiteObligations(fr, ins, relName(fn), args)
+	ex.callSiteObligations(fr, ins, ex.siteName(fn), args)
 	if v, ok := ex.intrinsic(fr, ins, fn, args); ok {
 		if !isDefer {
 			ex.bindResult(fr, ins, v)
@@ -168,7 +182,7 @@ func (ex *Exec) havocCall(fr *Frame, ins ssa.Instruction, fn *ssa.Function, sig 
 		res = ex.freshVal(rt, "ret|"+shortName(name))
 	}
 	if fn != nil {
-		ex.callSiteAssumptions(fr, ins, relName(fn), args, res, old)
+		ex.callSiteAssumptions(fr, ins, ex.siteName(fn), args, res, old)
 	}
 	return res
 }
@@ -484,7 +498,11 @@ func (ex *Exec) applyContractSig(fr *Frame, ins ssa.Instruction, c *Contract, fn
 		}
 		ex.assume(t)
 	}
-	ex.callSiteAssumptions(fr, ins, cname, args, res, old)
+	if fn != nil && cname == relName(fn) {
+		ex.callSiteAssumptions(fr, ins, ex.siteName(fn), args, res, old)
+	} else {
+		ex.callSiteAssumptions(fr, ins, cname, args, res, old)
+	}
 	return res
 }
 
